@@ -247,6 +247,8 @@ func runC10(c *Ctx) {
 	// the incrementally maintained snapshot a long-running process serves is the one of the merged entity (shared with C02)
 	checkCacheMergeFold(c, "R2.6")
 	checkCommentCombinedIdStable(c, "R13.8")
+	checkCompileKeepsOrder(c, "R10.1")
+	checkAppendNeverCompiles(c, "R10.2")
 }
 
 // isSameParam: v is the parameter p, or a load of the local cell p was spilled into (captured by a closure).
